@@ -778,7 +778,7 @@ example : joinTsSchema.apply (.replace 3 5 Slice.empty true) joinTsDoc = .error 
     is **false** for the model and for the code alike (upstream too; finding C12-wrap-ignores-marks):
     `find_wrapping_inside` walks the innermost wrapper's automaton over the *types* of the nodes of the range, the
     wrap itself (`ReplaceAroundStep.apply` → `Slice.insert_at` → `insert_into`) asks that wrapper
-    `can_replace(0, 0, nodes)`, which also wants it to allow their *marks*.  In a schema whose `doc` allows marks
+    `valid_content(nodes)`, which also wants it to allow their *marks*.  In a schema whose `doc` allows marks
     on its block children (`marks: "_"`), `doc(em(p("a")))`: `find_wrapping(range of the paragraph, quote)`
     approves `[quote]` and `Transform.wrap` raises `TransformError("Content does not fit in gap")`
     (`wrapCex…` below).  `wrapGuard` (PM/StructEdit.lean) is that test (and "no wrapper type is a leaf type",
@@ -911,10 +911,10 @@ example : wrapCexSchema.apply (.replaceAround 0 3 0 3 ⟨[.elem 1 [] [] []], 0, 
     exact contentBetween_empty _ _ r hr
   have hs : wrapCexDoc.slice 0 3 = .ok ⟨[.elem 2 [] [⟨0, []⟩] [.text [97] []]], 0, 0⟩ :=
     sliceKids_children (pre := []) (mid := [.elem 2 [] [⟨0, []⟩] [.text [97] []]]) (post := []) (Lvl.here 0 _) (by rfl)
-  have hcr : wrapCexSchema.canReplace 1 [] 0 0 [.elem 2 [] [⟨0, []⟩] [.text [97] []]] 0 1 = some false := by decide
+  have hcr : wrapCexSchema.validContent 1 [.elem 2 [] [⟨0, []⟩] [.text [97] []]] = false := by decide
   have hi : Slice.insertAt wrapCexSchema ⟨[.elem 1 [] [] []], 0, 0⟩ 1 [.elem 2 [] [⟨0, []⟩] [.text [97] []]]
       = .ok none := by
-    simp [Slice.insertAt, insertInto, flatInsert, hcr]
+    simp [Slice.insertAt, insertInto, flatInsert, fcut, fappend, hcr]
   simp [Schema.apply, hc0, hc3, hs, hi]
 
 /-- `wrapBuilds` is needed: `doc: block+`, `pair: item item`, `item: p+`, `p: text*`; `doc(p("a"))` -/
@@ -1046,7 +1046,7 @@ example : liftCopySchema.apply (.replaceAround 4 8 4 7 ⟨[.elem 1 [] [] []], 1,
   refine apply_around_of_parts liftCopySchema exDoc 4 8 4 7 _ 1 [.elem 2 [] [] [.text [98] []]]
     ⟨[.elem 1 [] [] [], .elem 2 [] [] [.text [98] []]], 1, 0⟩ _ rfl rfl ?_ ?_ ?_
   · simp [Node.slice, exDoc, Node.kids, sliceKids, inRange, sliceScan, sliceHere, fcut, fcutLoop, depthAt]
-  · simp [Slice.insertAt, insertInto, flatInsert, fcut, fappend, addNode]
+  · simp [Slice.insertAt, Slice.size, insertInto, flatInsert, fcut, fappend, addNode]
   · have hv : liftCopySchema.validContent 0
         [.elem 1 [] [] [.elem 2 [] [] [.text [97] []]], .elem 2 [] [] [.text [98] []]] = false := by decide
     have hv1 : liftCopySchema.validContent 1 [.elem 2 [] [] [.text [97] []]] = true := by decide
@@ -1080,7 +1080,7 @@ example : liftNestSchema.apply (.replaceAround 4 9 5 9
   refine apply_around_of_parts liftNestSchema liftNestDoc 4 9 5 9 _ 1 [.elem 2 [] [] [.elem 3 [] [] []]]
     ⟨[.elem 2 [] [] [], .elem 2 [] [] [.elem 3 [] [] []], .elem 2 [] [] [.elem 1 [] [] []]], 1, 2⟩ _ rfl rfl ?_ ?_ ?_
   · simp [Node.slice, liftNestDoc, Node.kids, sliceKids, inRange, sliceScan, sliceHere, fcut, fcutLoop, depthAt]
-  · simp [Slice.insertAt, insertInto, flatInsert, fcut, fcutLoop, fappend, addNode]
+  · simp [Slice.insertAt, Slice.size, insertInto, flatInsert, fcut, fcutLoop, fappend, addNode]
   · have hv : liftNestSchema.validContent 2 [.elem 1 [] [] [.elem 2 [] [] [.elem 3 [] [] []]]] = false := by decide
     have hv1 : liftNestSchema.validContent 2 [.elem 3 [] [] []] = true := by decide
     have hv2 : liftNestSchema.validContent 1 [.elem 2 [] [] [.elem 3 [] [] []]] = true := by decide
@@ -1605,9 +1605,9 @@ theorem canChangeType_needs_guard : canChangeType exSchema exDoc 1 1 = some true
     contentBetween_closesOpens _ _ _ (by rfl) (by omega) (by decide) (by rfl)
   have hs : exDoc.slice 2 3 = .ok ⟨[.text [97] []], 0, 0⟩ := by
     simp [Node.slice, exDoc, Node.kids, sliceKids, inRange, sliceScan, sliceHere, fcut, fcutLoop, depthAt, cutText]
-  have hcr : exSchema.canReplace 1 [] 0 0 [.text [97] []] 0 1 = some false := by decide
+  have hcr : exSchema.validContent 1 [.text [97] []] = false := by decide
   have hi : Slice.insertAt exSchema ⟨[.elem 1 [] [] []], 0, 0⟩ 1 [.text [97] []] = .ok none := by
-    simp [Slice.insertAt, insertInto, flatInsert, hcr]
+    simp [Slice.insertAt, insertInto, flatInsert, fcut, fappend, hcr]
   simp [retypeStep, Schema.apply, hc1, hc2, hs, hi]
 
 /-! ### the second pass of `drop_point` (closed slice): always through the Fitter
